@@ -54,7 +54,7 @@ def verdict4 (cfg : Cfg) (p p1 p2 : Program) (edb : DB) (impl : String) : String
   | [a, b, c, d, f] =>
     if headHasFacts p edb then ("na", false)
     else if a == b && a == c && a == d && f == "1" then (specOk, p1 != p && !a.startsWith "err:" && a != "{}")
-    else (specFail (classify4 cfg p p1 p2 edb parts) s!"base={a}", true)
+    else (specFail (classify4 cfg p p1 p2 edb parts) "variants-differ", true)
   | _ => (specFail "unclassified" "unparsable-impl-output", false)
 
 /-- `c04.run`: switches off — model must reproduce all four answers and the facts flag. -/
